@@ -15,6 +15,7 @@ UNITS = {
     "u14_loadopts": {"verus": "specs/u14_loadopts.vt.rs"},
     "u15_colids": {"verus": "specs/u15_colids.vt.rs"},
     "u16_autocommit": {"verus": "specs/u16_autocommit.vt.rs"},
+    "u18_actor_table": {"verus": "specs/u18_actor_table.vt.rs"},
 }
 CHUNK = "rust/automerge/src/storage/chunk.rs"
 EXID = "rust/automerge/src/exid.rs"
@@ -204,13 +205,16 @@ PROPERTIES.update({
     "C30": {
         "level": "proof",
         "verus": [("u04_ids", ["exid_to_opid", "get_actor_safe", "new", "remove_actor", "rewrite_with_new_actor", "with_new_actor", "without_actor", "actor"]),
-                  ("u16_autocommit", ["ensure_transaction_open", "ensure_transaction_closed", "commit_with", "empty_change", "set_actor", "load_incremental", "apply_changes", "apply_changes_batch", "merge", "save_with_options", "fork"])],
+                  ("u16_autocommit", ["ensure_transaction_open", "ensure_transaction_closed", "commit_with", "empty_change", "set_actor", "load_incremental", "apply_changes", "apply_changes_batch", "merge", "save_with_options", "fork"]),
+                  ("u18_actor_table", "*")],
         "kani": ["u04_opid_order", "u04_opid_actor_shift", "u04_opid_new"],
-        "not_under_contract": ["OpSet::lookup_actor (binary search; assumed contract, rests on the sorted duplicate-free actor table)", "OpSet::insert_actor / ChangeGraph::insert_actor column rewrites", "get_obj_meta", "PatchLog::migrate_actors loop"],
+        "not_under_contract": ["<[ActorId]>::binary_search (std contract assumed; OpSet::lookup_actor is proved against it in U18)", "OpSet::rewrite_with_new_actor / ChangeGraph::insert_actor column rewrites (assumed: shift exactly the stored indices >= idx)", "get_obj_meta", "PatchLog::migrate_actors loop"],
         "assumptions": ["a document has at most u32::MAX actors"],
         "explanation": "Verus proves on the real Automerge::exid_to_opid that an id resolves to an op id whose actor IS the id's actor whether the index hint is right, stale or out of range, and that an unknown "
                        "actor gives Err; the actor-table shifts OpId::with_new_actor / without_actor are proved exactly (Verus) and order/identity preserving and mutually inverse (Kani, complete); "
                        "Event::with_new_actor / without_actor re-index EVERY id-carrying pending patch event and nothing else; Actor::{remove_actor, rewrite_with_new_actor} keep the document's cached actor index on the same actor; "
+                       "U18: on the real Automerge::{insert_actor, put_actor, put_actor_ref} and OpSet::insert_actor, inserting an actor into the sorted table keeps it sorted and every stored actor index "
+                       "(op columns, change graph, the document's own cached index; ghost sequences) denotes the SAME actor id afterwards; an actor already present moves nothing. "
                        "U16: no AutoCommit entry point that can shift the actor table (load_incremental, apply_changes*, merge, set_actor, save) runs while a transaction holding a cached actor index is open, and a fork never inherits one.",
     },
     "C37": {
